@@ -133,7 +133,10 @@ def tlc_validate(traces, strict, timeout):
 
 def validate_all(v, traces, timeout, batch):
     """Validate every trace (batches in parallel TLC processes).  Returns (validated, rejected list)."""
-    batches = [traces[i:i + batch] for i in range(0, len(traces), batch)]
+    # round-robin: the (much heavier) free-running histories are spread over all batches
+    nbatch = max(1, (len(traces) + batch - 1) // batch)
+    batches = [traces[i::nbatch] for i in range(nbatch)]
+    batches = [b for b in batches if b]
     rejected = []
     states = [0, 0]
     skipped = [0]
@@ -321,7 +324,7 @@ def run(tier, seed, replay):
     vlib.log("[c15] replayed %d behaviours, %d with drift (%.0fs)" % (nrep, ndrift, time.time() - t0))
 
     # (4) TLC trace validation of every recorded history
-    nb = max(1, min(maxw, 12))
+    nb = max(1, min(maxw, 16))
     batch = max(1, (len(traces) + nb - 1) // nb)
     validated, rejected = validate_all(v, traces, 12000 if big else 3600, batch)
     report_rejected(v, rejected)
